@@ -109,6 +109,11 @@ func (s *sortedSet[ElementType, WeightType]) addSorted(element ElementType) {
 			if listElement.unsubscribeFromWeightUpdates != nil {
 				s.mutex.Lock()
 				defer s.mutex.Unlock()
+
+				// the element may have been deleted while this update was waiting for the mutex
+				if listElement.removed {
+					return
+				}
 			}
 
 			listElement.weight = newWeight
@@ -120,12 +125,22 @@ func (s *sortedSet[ElementType, WeightType]) addSorted(element ElementType) {
 
 // deleteSorted deletes the given element from the sortedElements slice.
 func (s *sortedSet[ElementType, WeightType]) deleteSorted(element ElementType) {
+	// unsubscribing waits for a weight update that is in flight, and that update needs the mutex: it has to happen
+	// after the mutex was released (otherwise a delete racing with a weight update deadlocks).
+	if unsubscribeFromWeightUpdates := s.removeSorted(element); unsubscribeFromWeightUpdates != nil {
+		unsubscribeFromWeightUpdates()
+	}
+}
+
+// removeSorted removes the given element from the sortedElements slice and returns the function that unsubscribes it
+// from its weight updates.
+func (s *sortedSet[ElementType, WeightType]) removeSorted(element ElementType) (unsubscribeFromWeightUpdates func()) {
 	s.mutex.Lock()
 	defer s.mutex.Unlock()
 
 	if deletedElement, deleted := s.elements.DeleteAndReturn(element); deleted {
-		// unsubscribe from weight updates
-		deletedElement.unsubscribeFromWeightUpdates()
+		deletedElement.removed = true
+		unsubscribeFromWeightUpdates = deletedElement.unsubscribeFromWeightUpdates
 
 		// shift all elements to the right of the deleted element one position to the left
 		for i := deletedElement.index; i < len(s.sortedElements)-1; i++ {
@@ -153,6 +168,8 @@ func (s *sortedSet[ElementType, WeightType]) deleteSorted(element ElementType) {
 			}
 		}
 	}
+
+	return unsubscribeFromWeightUpdates
 }
 
 // updatePosition updates the position of the given element in the sortedElements slice.
@@ -235,6 +252,9 @@ type sortedSetElement[ElementType comparable, WeightType cmp.Ordered] struct {
 
 	// unsubscribeFromWeightUpdates is the function that is used to unsubscribe from weight updates.
 	unsubscribeFromWeightUpdates func()
+
+	// removed is set (under the sortedSet's mutex) when the element was deleted from the set.
+	removed bool
 }
 
 // newSortedSetElement creates a new sortedSetElement instance.
